@@ -328,6 +328,10 @@ async fn downlink(d: Downlink, attach_tx: mpsc::Sender<AttachClient>, hist: Shar
     for (idx, op) in d.ops.iter().enumerate() {
         match op {
             DlOp::Pause(n) => yield_n(*n).await,
+            DlOp::DropReader => {
+                cell.borrow_mut().take();
+                hist.borrow_mut().marks.push((now_step(), format!("{name} dropped its reader")));
+            }
             DlOp::Detach => {
                 writer = None;
                 cell.borrow_mut().take();
@@ -914,7 +918,9 @@ pub async fn run(sc: &SockScenario) -> Record {
             0 => {
                 flags.borrow_mut().drain = true;
                 hist.borrow_mut().marks.push((exec.steps, "drain".into()));
-                exec.wake_all();
+                // Only harness nodes are woken: a spurious poll of a socket task would hide a wake-up it lost.
+                let product: Vec<_> = node_s.into_iter().chain(node_c).collect();
+                exec.wake_all_except(&product);
                 phase = 1;
             }
             1 => {
